@@ -162,6 +162,7 @@ def run_driver(exe, input_text=None, args=(), env=None, timeout=600, check=False
     e = dict(os.environ)
     e.setdefault('ASAN_OPTIONS', 'abort_on_error=0:detect_leaks=0:exitcode=99:allocator_may_return_null=1')
     e.setdefault('UBSAN_OPTIONS', 'print_stacktrace=1:halt_on_error=1:exitcode=98')
+    e.setdefault('MSAN_OPTIONS', 'exitcode=97:halt_on_error=1')     # (the default exit code 77 is what the guard-page drivers use)
     e.setdefault('TSAN_OPTIONS', 'halt_on_error=0:exitcode=97:second_deadlock_stack=1')
     if env:
         e.update(env)
@@ -228,7 +229,7 @@ def classify_valgrind(err):
 
 
 SAN_MARKERS = ('ERROR: AddressSanitizer', 'runtime error:', 'WARNING: ThreadSanitizer', 'ERROR: LeakSanitizer',
-               'UndefinedBehaviorSanitizer', 'AddressSanitizer:DEADLYSIGNAL')
+               'UndefinedBehaviorSanitizer', 'AddressSanitizer:DEADLYSIGNAL', 'WARNING: MemorySanitizer', 'MemorySanitizer:DEADLYSIGNAL')
 
 
 def classify_failure(rc, err):
@@ -259,6 +260,16 @@ def classify_failure(rc, err):
                 where = mm.group(1) if mm else fn[:60]
                 break
         return 'asan:%s:%s' % (m.group(1), where)
+    m = re.search(r'(?:WARNING|ERROR): MemorySanitizer: ([\w\-]+)', err)
+    if m:
+        frames = re.findall(r'#\d+ 0x[0-9a-f]+ in ([^\s]+) ([^\n]*)', err)
+        where = 'unknown'
+        for fn, loc in frames:
+            mm = re.search(r'/((?:src|include)/[\w/.\-]+):(\d+)', loc)
+            if mm and '/drivers/' not in loc:
+                where = mm.group(1)
+                break
+        return 'msan:%s:%s' % (m.group(1), where)
     if 'ThreadSanitizer' in err:
         return 'tsan:report'
     if rc == -999:
